@@ -300,6 +300,17 @@ func Run(t *testing.T, cfg harness.Config, idx int, tp *tape.Tape) (res harness.
 	for i := 0; i < nspec; i++ {
 		specs = append(specs, drawSpec(tp, idx, render, cfg.Thorough(), i == 0))
 	}
+	if tp.Chance(1, 5, "session.family") {
+		// a family: different programs over the same importable files
+		scripts, files := d2gen.Family(tp)
+		base := drawSpec(tp, idx, render, cfg.Thorough(), false)
+		for i, scr := range scripts {
+			sp := base
+			sp.Name = fmt.Sprintf("family-member-%d", i)
+			sp.Script, sp.Files = []byte(scr), toBytes(files)
+			specs = append(specs, sp)
+		}
+	}
 	type exec struct {
 		spec int
 		out  Output
